@@ -652,6 +652,7 @@ struct BodyScan {
     attr_nodes: Vec<(Vec<syn::Attribute>, Range<usize>)>,
     field_values: Vec<(Vec<syn::Attribute>, Range<usize>)>,
     str_matches: Vec<StrMatch>,
+    tries: Vec<(usize, Range<usize>)>, // (start of operand, range of the `?` token)
 }
 
 struct StrArm {
@@ -771,6 +772,10 @@ impl<'ast> Visit<'ast> for BodyScan {
             });
         }
         syn::visit::visit_expr_match(self, n);
+    }
+    fn visit_expr_try(&mut self, n: &'ast syn::ExprTry) {
+        self.tries.push((br(&*n.expr).start, br(&n.question_token)));
+        syn::visit::visit_expr_try(self, n);
     }
     fn visit_stmt(&mut self, n: &'ast syn::Stmt) {
         match n {
@@ -969,6 +974,16 @@ fn handle_fn(
                 // the wrapper's closing brace must come after any `after_loop` text at the same position
                 edits.insert_last(l.whole.end, " }");
                 log.push(format!("R6:for->while loop {}", n));
+            }
+            "guard_try" => {
+                // R13: every `E?` becomes an explicit match whose early return first asserts the given ghost condition
+                // (no error accumulator created in this function is still live: it would panic on drop)
+                let cond = e["text"].as_str().unwrap_or("true");
+                for (start, q) in &scan.tries {
+                    edits.insert(*start, "(match ");
+                    edits.replace(q.clone(), format!(" {{ Ok(__v) => __v, Err(__e) => {{ proof {{ assert({}); }} return Err(__e); }} }})", cond));
+                }
+                log.push(format!("R13:{} `?` sites guarded", scan.tries.len()));
             }
             "match_str" => {
                 let m = scan
